@@ -1,11 +1,151 @@
 package main
 
+import (
+	"go/ast"
+	"strings"
+)
+
 // regenerated facts of the "compact" family (C29 C30 C34)
 
 func init() { families = append(families, factsCompact) }
 
 func factsCompact() {
 	factsC30()
+	factsC34()
+}
+
+// argText returns the text of the n-th argument of the first call to name in body ("unknown" if absent).
+func argText(b ast.Node, name string, n int) string {
+	cs := calls(b, name)
+	if len(cs) == 0 || len(cs[0].Args) <= n {
+		return "unknown"
+	}
+	return text(cs[0].Args[n])
+}
+
+// flagDefault finds `….Flag("<flag>", …).Default("<v>")…` anywhere in the file and returns v.
+func flagDefault(f *ast.File, flag string) string {
+	res := "unknown"
+	if f == nil {
+		return res
+	}
+	ast.Inspect(f, func(n ast.Node) bool {
+		c, ok := n.(*ast.CallExpr)
+		if !ok {
+			return true
+		}
+		sel, ok := c.Fun.(*ast.SelectorExpr)
+		if !ok || sel.Sel.Name != "Default" || len(c.Args) != 1 {
+			return true
+		}
+		// walk down the receiver chain to the Flag(...) call
+		x := sel.X
+		for {
+			ic, ok := x.(*ast.CallExpr)
+			if !ok {
+				return true
+			}
+			isel, ok := ic.Fun.(*ast.SelectorExpr)
+			if !ok {
+				return true
+			}
+			if isel.Sel.Name == "Flag" && len(ic.Args) >= 1 {
+				if lit, ok := ic.Args[0].(*ast.BasicLit); ok && strings.Trim(lit.Value, "\"") == flag {
+					if dl, ok := c.Args[0].(*ast.BasicLit); ok {
+						res = strings.Trim(dl.Value, "\"")
+					}
+				}
+				return true
+			}
+			x = isel.X
+		}
+	})
+	return res
+}
+
+// filterOrder lists, in source order, which of the wanted names occur as elements of the first
+// []block.MetadataFilter{…} literal in body (an element is an identifier or a call; calls are named by callee).
+func filterOrder(b ast.Node, wanted ...string) []string {
+	var out []string
+	if b == nil {
+		return out
+	}
+	done := false
+	ast.Inspect(b, func(n ast.Node) bool {
+		if done {
+			return false
+		}
+		cl, ok := n.(*ast.CompositeLit)
+		if !ok || !strings.Contains(text(cl.Type), "MetadataFilter") {
+			return true
+		}
+		done = true
+		for _, e := range cl.Elts {
+			name := ""
+			switch v := e.(type) {
+			case *ast.Ident:
+				name = v.Name
+			case *ast.CallExpr:
+				name = callName(v)
+				if i := strings.LastIndex(name, "."); i >= 0 {
+					name = name[i+1:]
+				}
+			}
+			for _, w := range wanted {
+				if name == w {
+					out = append(out, name)
+				}
+			}
+		}
+		return false
+	})
+	return out
+}
+
+// C34: which delay goes where, flag defaults, filter order, the duplicate filter's sort.
+func factsC34() {
+	const csrc = "cmd/thanos/compact.go"
+	cf := parse(csrc)
+	rc := fn(cf, "", "runCompact")
+	emitStr("compactIgnoreDelayArg", csrc+" runCompact: delay given to NewIgnoreDeletionMarkFilter", argText(body(rc), "NewIgnoreDeletionMarkFilter", 2))
+	emitStr("compactCleanerDelayArg", csrc+" runCompact: delay given to NewBlocksCleaner", argText(body(rc), "NewBlocksCleaner", 3))
+	emitStr("compactDeleteDelayDefault", csrc+" flag --delete-delay default", flagDefault(cf, "delete-delay"))
+	emitList("compactFilterOrder", csrc+" runCompact: order of the deletion-mark and duplicate filters in the syncer's filter list",
+		filterOrder(body(rc), "ignoreDeletionMarkFilter", "duplicateBlocksFilter"))
+	const ssrc = "cmd/thanos/store.go"
+	sf := parse(ssrc)
+	rs := fn(sf, "", "runStore")
+	emitStr("storeIgnoreDelayArg", ssrc+" runStore: delay given to NewIgnoreDeletionMarkFilter", argText(body(rs), "NewIgnoreDeletionMarkFilter", 2))
+	emitStr("storeIgnoreDelayDefault", ssrc+" flag --ignore-deletion-marks-delay default", flagDefault(sf, "ignore-deletion-marks-delay"))
+	emitStr("storeSyncIntervalDefault", ssrc+" flag --sync-block-duration default", flagDefault(sf, "sync-block-duration"))
+	emitList("storeFilterOrder", ssrc+" runStore: order of the deletion-mark and duplicate filters in the fetcher's filter list",
+		filterOrder(body(rs), "ignoreDeletionMarkFilter", "NewDeduplicateFilter"))
+	const fsrc = "pkg/block/fetcher.go"
+	ff := parse(fsrc)
+	fg := fn(ff, "DefaultDeduplicateFilter", "filterGroup")
+	var rets []string
+	if fg != nil && fg.Body != nil {
+		// the comparator is the first function literal of filterGroup (argument of sort.Slice)
+		found := false
+		ast.Inspect(fg.Body, func(n ast.Node) bool {
+			if found {
+				return false
+			}
+			fl, ok := n.(*ast.FuncLit)
+			if !ok {
+				return true
+			}
+			found = true
+			ast.Inspect(fl.Body, func(m ast.Node) bool {
+				if r, ok := m.(*ast.ReturnStmt); ok && len(r.Results) == 1 {
+					rets = append(rets, text(r.Results[0]))
+				}
+				return true
+			})
+			return false
+		})
+	}
+	emitList("dedupSortReturns", fsrc+" DefaultDeduplicateFilter.filterGroup: the return expressions of the sort comparator, in source order", rets)
 }
 
 // C30: the conditions of the planner the model transliterates (pkg/compact/planner.go).
